@@ -124,10 +124,11 @@ class MPRZGate(
             x1, x2 = get_indices(i, self.target_qubit, self.num_qudits)
             # Optimize each RZ independently from indices
             # Taken from QFACTOR repo
-            a = np.angle(env_matrix[x1, x1])
-            b = np.angle(env_matrix[x2, x2])
-            # print(thetas)
-            thetas[i] = a - b
+            # maximise Re(e1 exp(-i theta/2) + e2 exp(i theta/2))
+            #        = Re(exp(i theta/2) (conj(e1) + e2))
+            e1 = env_matrix[x1, x1]
+            e2 = env_matrix[x2, x2]
+            thetas[i] = float(-2 * np.angle(np.conj(e1) + e2))
 
         return thetas
 
